@@ -63,8 +63,8 @@ def handle (ws : List String) : String :=
       let spec := if L = 0 ∨ d + x + 1 < L then "ok;rest:ok;follow:ok" else "RangeError;catchable;rest:ok;follow:ok"
       tok ++ " " ++ spec ++ " -"
     | _, _, _ => "bad-op"
-  | ["interrupt", _shape, "free"] => "halted;rest:ok;follow:ok halted;rest:ok;follow:ok -"
-  | ["interrupt", _shape, "intry"] => "halted-or-caught;rest:ok;follow:ok halted;rest:ok;follow:ok trycatch_foreign"
+  | ["interrupt", _shape, "free"] => "halted;rest:ok;follow:ok;again:halted halted;rest:ok;follow:ok;again:halted -"
+  | ["interrupt", _shape, "intry"] => "halted-or-caught;rest:ok;follow:ok;again:halted halted;rest:ok;follow:ok;again:halted trycatch_foreign"
   | _ => "bad-op"
 
 end OttoVerif.C18.Driver
